@@ -308,24 +308,16 @@ func runC16(c *Ctx) {
 	}
 
 	// ---- R16.5
-	if w.Spawn != nil && r.IDisp != nil {
-		n := 0
-		for _, g := range withAnon(w.Spawn) {
-			allInstrs(g, func(in ssa.Instruction) {
-				ci, ok := in.(ssa.CallInstruction)
-				if !ok || !ci.Common().IsInvoke() || ci.Common().Value.Type() != types.Type(r.IDisp) {
-					return
-				}
-				n++
-				_, isGo := in.(*ssa.Go)
-				own := isGo || (g != w.Spawn && c.spawnedAsGoroutine(g))
-				c.check(own, "R16.5", fmt.Sprintf("%s: handler goroutine", fname(w.Spawn)), c.ipos(in), "own goroutine", "a handler (e.g. of a notification) runs on the frame executor itself: when it makes a reverse call, the response can never be processed and the connection stalls")
-			})
-		}
-		if n == 0 {
+	{
+		invs := c.dispInvokes()
+		if len(invs) == 0 {
 			c.und("R16.5", "handler goroutine", "-", "no dispatcher invocation found")
 		}
+		for _, in := range invs {
+			c.check(c.onOwnGoroutine(in), "R16.5", "handler goroutine", c.ipos(in), "own goroutine", "a handler (e.g. of a notification) runs on the frame executor itself: when it makes a reverse call, the response can never be processed and the connection stalls")
+		}
 	}
+	_ = w
 	_ = token.ADD
 }
 
